@@ -116,6 +116,7 @@ Definition strip_outer (es : list event) : option (list event) :=
 (* positions: the model applied to the observed token texts gives the observed answers *)
 Definition positions_match (os : list tobs) : bool :=
   let l := map ptok_of os in
+  wf_ptoks l &&        (* hypothesis of token_at_own_offset / token_at_own_position *)
   forallb (fun io =>
     let '(i, o) := io in
     pair_eqb (start_pos_at Utf8 l i) (o_sp8 o) && pair_eqb (start_pos_at Utf16 l i) (o_sp16 o) &&
@@ -142,6 +143,7 @@ Definition check_case (c : case) : bool :=
     let fin := r_final r in
     events_eqb (full_events yara_cfg (c_len c) r) raw &&
     negb (stuck fin) && negb (panic (co fin)) && negb (hazard fin) &&
+    match r_exit r with Finished => true | _ => false end &&
     match c_cst c with
     | Some cst => events_eqb (merge_errors raw [] []) cst
     | None => false
